@@ -5,7 +5,7 @@ Contiguity of the chunks of one text node, at the level of the dispatcher (one c
 plus the closing empty chunk): after a chunk that is not the last of its node, the next token handed to
 the controller is a text chunk of the same node and starts exactly where the previous one ended.
 
-`TInv` is the sink-side invariant; `TV` adds the link with the lexer: while a text node is open,
+`TextInv` is the sink-side invariant; `TV` adds the link with the lexer: while a text node is open,
 `previously_consumed + lexeme_start` is where its last chunk ended (consecutive text lexemes are
 adjacent; any other lexeme, and any tag-scanner activity, closes the node first).
 -/
@@ -92,7 +92,7 @@ theorem Good.snoc {l : List Token} {t : Token} (h : Good l) (hl : ∀ a, l.getLa
   · simp only [List.mem_singleton] at hx; subst hx; exact ht
 
 /-- sink-side invariant -/
-structure TInv (log : γ → List Token) (d : Disp γ) : Prop where
+structure TextInv (log : γ → List Token) (d : Disp γ) : Prop where
   contig : Good (log d.ctl)
   open_ : d.textPending = true → d.flags.text = true ∧
     ∃ b tt s, (log d.ctl).getLast? = some (.text b tt false s) ∧ s.end = d.textPendingStart
@@ -100,7 +100,7 @@ structure TInv (log : γ → List Token) (d : Disp γ) : Prop where
 
 /-- the joint invariant: `ls?` = the lexer's `lexeme_start` (`none`: the tag scanner is running) -/
 def TV (log : γ → List Token) (pc : Nat) (ls? : Option Nat) (d : Disp γ) : Prop :=
-  TInv log d ∧
+  TextInv log d ∧
   match ls? with
   | some ls => d.textPending = true → pc + ls = d.textPendingStart
   | none => d.textPending = false
@@ -120,10 +120,10 @@ section
 variable {ctl : Controller γ} {log : γ → List Token} {pc : Nat} {inp : Bytes}
 
 /-- appending a token that closes / does not open a text node -/
-theorem TInv.append_closed {d d' : Disp γ} {t : Token} (h : TInv log d) (hlog : log d'.ctl = log d.ctl ++ [t])
+theorem TextInv.append_closed {d d' : Disp γ} {t : Token} (h : TextInv log d) (hlog : log d'.ctl = log d.ctl ++ [t])
     (hlink : ∀ a, (log d.ctl).getLast? = some a → Link a t) (hnot : ¬ OpenText t) (hlen : TextLen t)
     (hp : d'.textPending = false) :
-    TInv log d' := by
+    TextInv log d' := by
   refine ⟨by rw [hlog]; exact h.contig.snoc hlink hlen, fun hp' => by rw [hp] at hp'; simp at hp', ?_⟩
   intro _ a ha
   rw [hlog, List.getLast?_append] at ha
@@ -131,9 +131,9 @@ theorem TInv.append_closed {d d' : Disp γ} {t : Token} (h : TInv log d) (hlog :
   subst ha
   exact hnot
 
-theorem TInv.frame {d d' : Disp γ} (h : TInv log d) (hlog : log d'.ctl = log d.ctl) (hp : d'.textPending = d.textPending)
+theorem TextInv.frame {d d' : Disp γ} (h : TextInv log d) (hlog : log d'.ctl = log d.ctl) (hp : d'.textPending = d.textPending)
     (hts : d'.textPendingStart = d.textPendingStart) (hf : d.textPending = true → d'.flags.text = d.flags.text) :
-    TInv log d' := by
+    TextInv log d' := by
   refine ⟨by rw [hlog]; exact h.contig, ?_, ?_⟩
   · intro hp'
     rw [hp] at hp'
@@ -154,8 +154,8 @@ theorem tokenProduced_flags (d : Disp γ) (t : Token) : (Disp.tokenProduced ctl 
   dsimp only
   split <;> simp only [key]
 
-theorem flushPendingText_T (hlog : Logging ctl log) (d : Disp γ) (h : TInv log d) :
-    OkD (fun d' => TInv log d' ∧ d'.textPending = false ∧ d'.flags = d.flags) (d.flushPendingText ctl) := by
+theorem flushPendingText_T (hlog : Logging ctl log) (d : Disp γ) (h : TextInv log d) :
+    OkD (fun d' => TextInv log d' ∧ d'.textPending = false ∧ d'.flags = d.flags) (d.flushPendingText ctl) := by
   intro a ha
   unfold Disp.flushPendingText at ha ⊢
   split
@@ -166,7 +166,7 @@ theorem flushPendingText_T (hlog : Logging ctl log) (d : Disp γ) (h : TInv log 
     have hfl := tokenProduced_flags (ctl := ctl) { d with textPending := false }
       (.text [] d.lastTextType true ⟨d.textPendingStart, d.textPendingStart⟩)
     refine ⟨?_, by rw [t3], hfl⟩
-    apply TInv.append_closed (d := d) h t1
+    apply TextInv.append_closed (d := d) h t1
     · intro a' ha'
       rw [hlast] at ha'
       simp only [Option.some.injEq] at ha'
@@ -191,8 +191,8 @@ theorem emitChunkBefore_frame {d d' : Disp γ} {raw : Range} (he : d.emitChunkBe
 
 /-- a non-text token on a closed node -/
 theorem emitToken_T (hlog : Logging ctl log) (d : Disp γ) (raw : Range) (tok : Token) (hnot : NotText tok)
-    (hnp : d.textPending = false) (h : TInv log d) :
-    OkD (fun d' => TInv log d' ∧ d'.textPending = false) (d.emitToken ctl inp raw tok) := by
+    (hnp : d.textPending = false) (h : TextInv log d) :
+    OkD (fun d' => TextInv log d' ∧ d'.textPending = false) (d.emitToken ctl inp raw tok) := by
   unfold Disp.emitToken
   cases he : d.emitChunkBefore inp raw with
   | error e => intro a ha; simp [DRes.ofExcept, DRes.bind] at ha
@@ -210,7 +210,7 @@ theorem emitToken_T (hlog : Logging ctl log) (d : Disp γ) (raw : Range) (tok : 
       have hp' : ({ Disp.tokenProduced ctl d1 tok |>.1 with rcs := raw.end }).flushEncodingChange.textPending = false := by
         rw [f3]; simp only; rw [t3, e2, hnp]
       refine ⟨?_, hp'⟩
-      apply TInv.append_closed (d := d) h (t := tok)
+      apply TextInv.append_closed (d := d) h (t := tok)
       · rw [f1]; simp only; rw [t1, e1]
       · intro a' ha'
         exact Link.of_not_open (h.closed hnp a' ha')
@@ -234,7 +234,7 @@ theorem nonTagToToken_notOpen {f : Flags} {lx : NonTagLexeme} {tok : Token}
   (repeat' split at h) <;> simp_all
 
 theorem produceTag_T (hlog : Logging ctl log) (d : Disp γ) (lx : TagLexeme) (hnp : d.textPending = false)
-    (h : TInv log d) : OkD (fun d' => TInv log d' ∧ d'.textPending = false) (d.produceTag ctl inp lx) := by
+    (h : TextInv log d) : OkD (fun d' => TextInv log d' ∧ d'.textPending = false) (d.produceTag ctl inp lx) := by
   unfold Disp.produceTag
   split
   · intro a ha; simp at ha
@@ -256,8 +256,8 @@ theorem textLen_of_slice {rawb : Bytes} {ls e : Nat} {tt : TextType} {l : Bool}
 
 /-- a text lexeme adjacent to the open node (or opening one) -/
 theorem produceText_T (hlog : Logging ctl log) (d : Disp γ) (ls e : Nat) (o : Option NonTagOutline) (tt : TextType)
-    (hft : d.flags.text = true) (hadj : d.textPending = true → pc + ls = d.textPendingStart) (h : TInv log d) :
-    OkD (fun d' => TInv log d' ∧ d'.textPending = true ∧ d'.textPendingStart = pc + e)
+    (hft : d.flags.text = true) (hadj : d.textPending = true → pc + ls = d.textPendingStart) (h : TextInv log d) :
+    OkD (fun d' => TextInv log d' ∧ d'.textPending = true ∧ d'.textPendingStart = pc + e)
       (d.produceText ctl inp ⟨pc, ⟨ls, e⟩, o⟩ tt) := by
   unfold Disp.produceText
   simp only
@@ -374,9 +374,9 @@ theorem adjustFlagsForTag_TFrame (hlog : Logging ctl log) (d : Disp γ) (lx : Ta
   exact ⟨a, c, e⟩
 
 /-- the flag-adjustment step of `handle_tag` on a closed node -/
-theorem adjustStep_T (hlog : Logging ctl log) (lx : TagLexeme) (d1 : Disp γ) (hd1 : TInv log d1)
+theorem adjustStep_T (hlog : Logging ctl log) (lx : TagLexeme) (d1 : Disp γ) (hd1 : TextInv log d1)
     (hp1 : d1.textPending = false) :
-    OkD (fun d' => TInv log d' ∧ d'.textPending = false)
+    OkD (fun d' => TextInv log d' ∧ d'.textPending = false)
       (if d1.gotFlagsFromHint then (({ d1 with gotFlagsFromHint := false }, .ok ()) : DRes γ Unit)
        else d1.adjustFlagsForTag ctl inp lx) := by
   split
@@ -386,16 +386,16 @@ theorem adjustStep_T (hlog : Logging ctl log) (lx : TagLexeme) (d1 : Disp γ) (h
     obtain ⟨a1, a2, a3⟩ := adjustFlagsForTag_TFrame (inp := inp) hlog d1 lx
     exact ⟨hd1.frame a1 a2 a3 (fun hp => by rw [hp1] at hp; simp at hp), by rw [a2]; exact hp1⟩
 
-theorem resumeEmission_T (lx : TagLexeme) (d2 : Disp γ) (hd2 : TInv log d2) (hp2 : d2.textPending = false) :
-    TInv log (d2.resumeEmission ctl lx) ∧ (d2.resumeEmission ctl lx).textPending = false := by
+theorem resumeEmission_T (lx : TagLexeme) (d2 : Disp γ) (hd2 : TextInv log d2) (hp2 : d2.textPending = false) :
+    TextInv log (d2.resumeEmission ctl lx) ∧ (d2.resumeEmission ctl lx).textPending = false := by
   unfold Disp.resumeEmission
   split
   · exact ⟨hd2.frame rfl rfl rfl (fun _ => rfl), hp2⟩
   · exact ⟨hd2, hp2⟩
 
 /-- `handle_tag`: closes the open node; the node is closed afterwards -/
-theorem handleTag_T (hlog : Logging ctl log) (lx : TagLexeme) (d : Disp γ) (h : TInv log d) :
-    OkD (fun d' => TInv log d' ∧ d'.textPending = false) (Disp.handleTag ctl inp lx d) := by
+theorem handleTag_T (hlog : Logging ctl log) (lx : TagLexeme) (d : Disp γ) (h : TextInv log d) :
+    OkD (fun d' => TextInv log d' ∧ d'.textPending = false) (Disp.handleTag ctl inp lx d) := by
   unfold Disp.handleTag
   refine OkD.bind (flushPendingText_T hlog d h) ?_
   intro d1 _ ⟨hd1, hp1, _⟩
@@ -407,9 +407,9 @@ theorem handleTag_T (hlog : Logging ctl log) (lx : TagLexeme) (d : Disp γ) (h :
   intro a _
   exact ⟨hd3.frame rfl rfl rfl (fun _ => rfl), hp3⟩
 
-theorem startTagHint_T (hlog : Logging ctl log) (name : LocalName) (ns : Ns) (d : Disp γ) (h : TInv log d)
+theorem startTagHint_T (hlog : Logging ctl log) (name : LocalName) (ns : Ns) (d : Disp γ) (h : TextInv log d)
     (hnp : d.textPending = false) :
-    TInv log (Disp.startTagHint ctl name ns d).1 ∧ (Disp.startTagHint ctl name ns d).1.textPending = false := by
+    TextInv log (Disp.startTagHint ctl name ns d).1 ∧ (Disp.startTagHint ctl name ns d).1.textPending = false := by
   unfold Disp.startTagHint
   dsimp only
   split
@@ -417,8 +417,8 @@ theorem startTagHint_T (hlog : Logging ctl log) (name : LocalName) (ns : Ns) (d 
   · exact ⟨h.frame (by simp [hlog.startTag]) rfl rfl (fun _ => rfl), hnp⟩
   · exact ⟨h.frame (by simp [hlog.startTag]) rfl rfl (fun _ => rfl), hnp⟩
 
-theorem endTagHint_T (hlog : Logging ctl log) (name : LocalName) (d : Disp γ) (h : TInv log d) :
-    OkD (fun d' => TInv log d' ∧ d'.textPending = false) (Disp.endTagHint ctl name d) := by
+theorem endTagHint_T (hlog : Logging ctl log) (name : LocalName) (d : Disp γ) (h : TextInv log d) :
+    OkD (fun d' => TextInv log d' ∧ d'.textPending = false) (Disp.endTagHint ctl name d) := by
   unfold Disp.endTagHint
   refine OkD.bind (flushPendingText_T hlog d h) ?_
   intro d1 _ ⟨hd1, hp1, _⟩
@@ -436,7 +436,7 @@ theorem contig_bind {α β : Type} {Q : Disp γ → Prop} {r : DRes γ α} {f : 
   · exact hc
   · rename_i a ha; exact hf _ _ (hok a ha)
 
-theorem flushPendingText_C (hlog : Logging ctl log) (d : Disp γ) (h : TInv log d) :
+theorem flushPendingText_C (hlog : Logging ctl log) (d : Disp γ) (h : TextInv log d) :
     Good (log (d.flushPendingText ctl).1.ctl) := by
   unfold Disp.flushPendingText
   split
@@ -457,7 +457,7 @@ theorem flushEncodingChange_ctl (d0 : Disp γ) : d0.flushEncodingChange.ctl = d0
   unfold Disp.flushEncodingChange; (repeat' split) <;> simp
 
 theorem emitToken_C (hlog : Logging ctl log) (d : Disp γ) (raw : Range) (tok : Token) (hnot : NotText tok)
-    (hnp : d.textPending = false) (h : TInv log d) : Good (log (d.emitToken ctl inp raw tok).1.ctl) := by
+    (hnp : d.textPending = false) (h : TextInv log d) : Good (log (d.emitToken ctl inp raw tok).1.ctl) := by
   unfold Disp.emitToken
   cases he : d.emitChunkBefore inp raw with
   | error e => simp only [DRes.ofExcept, DRes.bind]; exact h.contig
@@ -475,7 +475,7 @@ theorem emitToken_C (hlog : Logging ctl log) (d : Disp γ) (raw : Range) (tok : 
       exact hc
 
 theorem produceTag_C (hlog : Logging ctl log) (d : Disp γ) (lx : TagLexeme) (hnp : d.textPending = false)
-    (h : TInv log d) : Good (log (d.produceTag ctl inp lx).1.ctl) := by
+    (h : TextInv log d) : Good (log (d.produceTag ctl inp lx).1.ctl) := by
   unfold Disp.produceTag
   split
   · exact h.contig
@@ -488,7 +488,7 @@ theorem produceTag_C (hlog : Logging ctl log) (d : Disp γ) (lx : TagLexeme) (hn
         (h.frame rfl rfl rfl (fun hp => by rw [hnp] at hp; simp at hp))
 
 theorem produceText_C (hlog : Logging ctl log) (d : Disp γ) (ls e : Nat) (o : Option NonTagOutline) (tt : TextType)
-    (hadj : d.textPending = true → pc + ls = d.textPendingStart) (h : TInv log d) :
+    (hadj : d.textPending = true → pc + ls = d.textPendingStart) (h : TextInv log d) :
     Good (log (d.produceText ctl inp ⟨pc, ⟨ls, e⟩, o⟩ tt).1.ctl) := by
   unfold Disp.produceText
   simp only
@@ -560,7 +560,7 @@ theorem handleNonTag_C (hlog : Logging ctl log) (ls e : Nat) (o : Option NonTagO
       · exact produceText_C hlog d ls e _ tt' hadj hT
       · exact hT.contig
 
-theorem handleTag_C (hlog : Logging ctl log) (lx : TagLexeme) (d : Disp γ) (h : TInv log d) :
+theorem handleTag_C (hlog : Logging ctl log) (lx : TagLexeme) (d : Disp γ) (h : TextInv log d) :
     Good (log (Disp.handleTag ctl inp lx d).1.ctl) := by
   unfold Disp.handleTag
   refine contig_bind (flushPendingText_T hlog d h) (flushPendingText_C hlog d h) ?_
@@ -575,13 +575,13 @@ theorem handleTag_C (hlog : Logging ctl log) (lx : TagLexeme) (d : Disp γ) (h :
     intro d3 _ ⟨hd3, _⟩
     exact hd3.contig
 
-theorem startTagHint_C (hlog : Logging ctl log) (name : LocalName) (ns : Ns) (d : Disp γ) (h : TInv log d) :
+theorem startTagHint_C (hlog : Logging ctl log) (name : LocalName) (ns : Ns) (d : Disp γ) (h : TextInv log d) :
     Good (log (Disp.startTagHint ctl name ns d).1.ctl) := by
   unfold Disp.startTagHint
   dsimp only
   split <;> simp only [Disp.applyHintFlags, hlog.startTag] <;> exact h.contig
 
-theorem endTagHint_C (hlog : Logging ctl log) (name : LocalName) (d : Disp γ) (h : TInv log d) :
+theorem endTagHint_C (hlog : Logging ctl log) (name : LocalName) (d : Disp γ) (h : TextInv log d) :
     Good (log (Disp.endTagHint ctl name d).1.ctl) := by
   unfold Disp.endTagHint
   refine contig_bind (flushPendingText_T hlog d h) (flushPendingText_C hlog d h) ?_
